@@ -4,7 +4,7 @@
 
 package tparsetime
 
-//@ property C13 C07
+//@ property C13 C07 C12
 
 // ---- specification of the timestamp shape (from the property statement) -------------------------
 //@ pure func d(t string, i int) int := t[i] - 48
